@@ -23,7 +23,8 @@ for d in sorted(glob.glob("/verif/seeded/*/")):
             v = [l for l in r.stdout.splitlines() if l.startswith("VIOLATION")]
             if r.returncode == 1 and v:
                 caught.append(f"{p}:{len(v)}({sum('no-failing-input-found' not in l for l in v)} replayed)")
-        rows.append((sid, "caught" if caught else "MISSED", " ".join(caught)))
+        status = "caught" if caught else ("missed (recorded as a known gap in meta.json)" if meta.get("known_miss") else "MISSED")
+        rows.append((sid, status, " ".join(caught)))
     finally:
         shutil.rmtree(s, ignore_errors=True)
 for r in rows: print("%-32s %-8s %s" % r)
